@@ -18,7 +18,9 @@ for t in test*; do
   while [ $rc -ne 0 ] && [ $tries -lt 3 ]; do
     timeout 1800 ./"$t" > "/tmp/baseline_$t.log" 2>&1
     rc=$?; tries=$((tries+1))
-    [ "$t" = "testmatrix" ] || break
+    # testnumeric Test3 draws 10M time-seeded doubles and aborts when one equals the lower bound exactly
+    # (2 of the 2^32 generator states; ~0.3% of the start seeds reach one within 10M steps), also on the pinned commit
+    [ "$t" = "testmatrix" ] || [ "$t" = "testnumeric" ] || break
   done
   cat "/tmp/baseline_$t.log" | grep -a -i "test\|error\|abort" | head -200
   if [ $rc -ne 0 ]; then
